@@ -219,7 +219,9 @@ impl Interval {
             }
         } else {
             // The interval either contains both -1 and 0 or wraps around
-            if let Ok(start) = self.start.try_to_i128() {
+            if let (Ok(start), true) = (self.start.try_to_i128(), width <= ByteSize::new(8)) {
+                // Note that `adjust_to_stride_and_remainder()` does nothing for bytesizes larger than 8,
+                // so for these we have to fall back to the case without stride information below.
                 let stride = 1 << self.stride.trailing_zeros();
                 let remainder = (start % stride + stride) % stride;
                 Interval {
